@@ -291,7 +291,9 @@ class Case:
                     if i in dpr_seen:
                         self.witness("shutdown.forced_stop_sent_dpr", {"conn": i})
                 else:
-                    if ready_at_stop.get(i) and i not in dpr_seen and not sp.closed:
+                    if ready_at_stop.get(i) and i not in dpr_seen and not sp.closed and spec["wait_timeout"] >= 1:
+                        # (with a wait timeout of zero the connection is closed at once: whether the queued DPR
+                        # still makes it to the wire is not specified)
                         self.witness(f"shutdown.ready_peer_without_dpr.{st}", {"conn": i})
                     if not ready_at_stop.get(i) and i in dpr_seen and react != "handshake_during_stop":
                         # (a handshake completing while stop() walks the table may or may not get a DPR)
@@ -496,6 +498,10 @@ def run_shard(spec):
         for re in REACTIONS:
             for force in (False, True):
                 cases.append(([(st, re)], re == "never", st == "ready", force, 6))
+    # a wait timeout of zero: the exchange is started and nobody is waited for
+    for st in STATES:
+        cases.append(([(st, "never")], False, False, False, 0))
+        cases.append(([(st, "prompt"), ("ready", "never")], True, False, False, 0))
     for st in ("await_cer", "await_cea"):
         cases.append(([(st, "handshake_during_stop")], False, False, False, 9))
         cases.append(([(st, "handshake_during_stop"), ("ready", "never")], False, False, False, 9))
@@ -512,7 +518,7 @@ def run_shard(spec):
     for _ in range(spec["n"] // 6):
         n = rng.choice([1, 2, 3, 3])
         conns = [(rng.choice(STATES), rng.choice(REACTIONS)) for _ in range(n)]
-        run.one(conns, rng.random() < 0.5, rng.random() < 0.3, rng.random() < 0.3, rng.choice([2, 4, 8, 30]),
+        run.one(conns, rng.random() < 0.5, rng.random() < 0.3, rng.random() < 0.3, rng.choice([0, 2, 4, 8, 30]),
                 rng.choice([None, rng.getrandbits(30)]), rng.choice([1, 1, 2, 3, 12]))
     return run.result()
 
